@@ -30,7 +30,7 @@ RULE = ("each run draws capacity 1-12, a refill rate from {0.005..50}/s, 1-5 pee
         "bound over the admitted history. distinct = distinct (config, decision-vector, eviction "
         "pattern) signatures; non-trivial = at least one refusal AND (an eviction or a concurrent "
         "burst or a second address) occurred")
-PROBES = ["limiter_is_the_middleware_itself", "wire_mode_over_tls", "uploads_in_wire_mode", "peer_says_goodbye_with_its_request", "wall_clock_stepped_during_the_run", "peer_reset_after_admission", "requests_with_varying_client_certificate", "many_address_flood", "config_from_toml", "cleanup_race_scenario", "eviction_happened", "refusal", "slow_refill_run", "concurrent_burst", "wire_mode",
+PROBES = ["burst_during_a_large_cleanup_pass", "limiter_is_the_middleware_itself", "wire_mode_over_tls", "uploads_in_wire_mode", "peer_says_goodbye_with_its_request", "wall_clock_stepped_during_the_run", "peer_reset_after_admission", "requests_with_varying_client_certificate", "many_address_flood", "config_from_toml", "cleanup_race_scenario", "eviction_happened", "refusal", "slow_refill_run", "concurrent_burst", "wire_mode",
           "idle_ge_600_with_partial_bucket"]
 COMPONENTS = {
     "real": ["nauyaca.server.middleware.RateLimiter/TokenBucket/MiddlewareChain",
@@ -492,6 +492,29 @@ def run_one(ch):
             check_decision(net.now, other, allow, resp)
             if i % 500 == 499:
                 await asyncio.sleep(step * 500)
+        if ch.chance("flood.tick", 0.5):
+            # everybody goes idle until the first clean-up tick at which the whole table is
+            # evictable; addresses that come LATE in the table (a few late-comers that drained
+            # their bucket) then burst in the very instant of that pass, one request per turn
+            # of the loop
+            late = [f"10.200.0.{k + 1}" for k in range(2)]
+            for ip in late:
+                for _ in range(cap + 1):
+                    allow, resp = await rl.process_request("gemini://h.sim/", ip, None)
+                    check_decision(net.now, ip, allow, resp)
+            loop = asyncio.get_running_loop()
+            full_at = net.now + (cap / rate if rate else 0.0)
+            b = 300.0 * (int(max(net.now + 600.0, full_at) // 300.0) + 1)
+            fut = loop.create_future()
+            loop.call_at(b, fut.set_result, None)
+            await fut
+            st["burst"] = True
+            res.stats["burst_during_a_large_cleanup_pass"] += 1
+            for _ in range(cap + 3):
+                for ip in late + addrs[:1]:
+                    allow, resp = await rl.process_request("gemini://h.sim/", ip, None)
+                    check_decision(net.now, ip, allow, resp)
+                    await asyncio.sleep(0)
         for rnd in range(2):
             for ip in addrs:
                 for _ in range(1 + ch.choose("flood.post", cap + 1)):
